@@ -31,7 +31,7 @@ repo = sys.argv[1] if len(sys.argv) > 1 else "/repo"
 outp = sys.argv[2] if len(sys.argv) > 2 else "GenClosures.lean"
 
 FILES = ["tea-rolling/src/features.rs", "tea-rolling/src/binary.rs", "tea-rolling/src/reg.rs",
-         "tea-rolling/src/norm.rs"]
+         "tea-rolling/src/norm.rs", "tea-rolling/src/cmp.rs"]
 DRIVERS = {"rolling_apply": 1, "rolling2_apply": 2}
 
 LEAN_KW = {"end", "at", "from", "open", "in", "do", "then", "else", "if", "fun", "let", "have", "show",
@@ -49,7 +49,7 @@ class Unsupported(Exception):
 # ------------------------------------------------------------------------------------------
 TOK = re.compile(r"""
     (?P<ws>\s+|//[^\n]*|/\*.*?\*/)
-  | (?P<num>\d[\d_]*\.\d*(?:[eE][+-]?\d+)?(?:f64|f32)?|\d[\d_]*(?:[eE][+-]?\d+)?(?:usize|i32|i64|u64|f64|f32)?)
+  | (?P<num>\d[\d_]*\.(?!\.)\d*(?:[eE][+-]?\d+)?(?:f64|f32)?|\d[\d_]*(?:[eE][+-]?\d+)?(?:usize|i32|i64|u64|f64|f32)?)
   | (?P<id>[A-Za-z_][A-Za-z0-9_]*)
   | (?P<op>\.\.=|\.\.|::|->|=>|<<=|>>=|\+=|-=|\*=|/=|%=|==|!=|<=|>=|&&|\|\||<<|>>|[-+*/%<>=!&|^.,;:()\[\]{}#?'])
 """, re.X | re.S)
@@ -72,7 +72,7 @@ def tokenize(src):
 # ------------------------------------------------------------------------------------------
 # parser (expressions, statements, closures)
 # ------------------------------------------------------------------------------------------
-BINPREC = {"||": 1, "&&": 2, "==": 3, "!=": 3, "<": 3, ">": 3, "<=": 3, ">=": 3, "|": 4, "^": 5, "&": 6,
+BINPREC = {"..=": 0.5, "..": 0.5, "||": 1, "&&": 2, "==": 3, "!=": 3, "<": 3, ">": 3, "<=": 3, ">=": 3, "|": 4, "^": 5, "&": 6,
            "<<": 7, ">>": 7, "+": 8, "-": 8, "*": 9, "/": 9, "%": 9}
 ASSIGN = {"=", "+=", "-=", "*=", "/="}
 
@@ -138,13 +138,35 @@ class P:
                     self.next()
                     mut = True
                 p = self.pat()
-                if self.at(":"):          # type annotation: skipped up to `=`
-                    while not self.at("="):
-                        self.next()
+                ann = ""
+                if self.at(":"):          # type annotation: kept as text
+                    self.next()
+                    depth = 0
+                    while not (depth == 0 and (self.at("=") or self.at(";"))):
+                        t = self.next()[1]
+                        if t == "<":
+                            depth += 1
+                        elif t == ">":
+                            depth -= 1
+                        elif t == ">>":
+                            depth -= 2
+                        ann += t
+                if self.at(";"):          # `let x: T;` — initialised later
+                    self.next()
+                    stmts.append(("let", p, True, None, ann))
+                    continue
                 self.eat("=")
                 e = self.expr()
                 self.eat(";")
-                stmts.append(("let", p, mut, e))
+                stmts.append(("let", p, mut, e, ann))
+                continue
+            if self.at("for"):
+                self.next()
+                p = self.pat()
+                self.eat("in")
+                it = self.expr()
+                body = self.block()
+                stmts.append(("expr", ("for", p, it, body)))
                 continue
             e = self.expr()
             if self.peek()[1] in ASSIGN:
@@ -161,7 +183,7 @@ class P:
                 stmts.append(("expr", e))
             elif self.at("}"):
                 tail = e
-            elif e[0] in ("if", "iflet", "block"):
+            elif e[0] in ("if", "iflet", "block", "match"):
                 stmts.append(("expr", e))
             else:
                 raise Unsupported(f"statement boundary at {self.peek()[1]!r}")
@@ -192,6 +214,11 @@ class P:
         if self.at("!"):
             self.next()
             return ("not", self.unary())
+        if self.at("&"):
+            self.next()
+            if self.at("mut"):
+                self.next()
+            return ("ref", self.unary())
         return self.postfix()
 
     def args(self):
@@ -267,6 +294,23 @@ class P:
                 self.next()
                 el = self.primary() if self.at("if") else self.block()
             return ("if", c, th, el)
+        if v == "match":
+            self.next()
+            scrut = self.expr_nostruct()
+            self.eat("{")
+            arms = []
+            while not self.at("}"):
+                pats = [self.match_pat()]
+                while self.at("|"):
+                    self.next()
+                    pats.append(self.match_pat())
+                self.eat("=>")
+                body = self.block() if self.at("{") else ("block", [], self.expr())
+                if self.at(","):
+                    self.next()
+                arms.append((pats, body))
+            self.eat("}")
+            return ("match", scrut, arms)
         if v in ("move", "|", "||"):
             if v == "move":
                 self.next()
@@ -293,6 +337,22 @@ class P:
 
     def expr_nostruct(self):
         return self.expr()
+
+    def match_pat(self):
+        k, v = self.peek()
+        if v == "_":
+            self.next()
+            return "_"
+        if k == "id":
+            self.next()
+            path = v
+            while self.at("::"):
+                self.next()
+                path += "::" + self.next()[1]
+            if self.at("("):
+                raise Unsupported("match pattern with arguments")
+            return path
+        raise Unsupported(f"match pattern {v!r}")
 
 
 # ------------------------------------------------------------------------------------------
@@ -360,14 +420,19 @@ def assigned_outer(node, bound=frozenset()):
             b = set(bound)
             for st in x[1]:
                 if st[0] == "let":
-                    walk(st[3], b)
+                    if st[3] is not None:
+                        walk(st[3], b)
                     for n in pat_names(st[1], []):
                         b.add(n)
                 elif st[0] == "assign":
-                    if st[2][0] != "path":
-                        raise Unsupported("assignment target")
                     walk(st[3], b)
-                    add(st[2][1], b)
+                    if st[2][0] == "path":
+                        add(st[2][1], b)
+                    elif st[2][0] == "tuple" and all(t[0] == "path" for t in st[2][1]):
+                        for t in st[2][1]:
+                            add(t[1], b)
+                    else:
+                        raise Unsupported("assignment target")
                 else:
                     walk(st[1], b)
             if x[2] is not None:
@@ -384,10 +449,19 @@ def assigned_outer(node, bound=frozenset()):
             if x[3] is not None:
                 walk(x[3], bound)
         elif k == "closure":
-            raise Unsupported("nested closure")
+            inner = assigned_outer(x[2], frozenset(set(bound) | set(n for q in x[1] for n in pat_names(q, []))))
+            if inner:
+                raise Unsupported("nested closure that assigns")
+        elif k == "for":
+            walk(x[2], bound)
+            walk(x[3], set(bound) | set(pat_names(x[1], [])))
+        elif k == "match":
+            walk(x[1], bound)
+            for _pats, body in x[2]:
+                walk(body, bound)
         elif k in ("bin",):
             walk(x[2], bound); walk(x[3], bound)
-        elif k in ("paren", "neg", "not", "cast", "field"):
+        elif k in ("paren", "neg", "not", "cast", "field", "ref"):
             walk(x[1], bound)
         elif k == "mcall":
             walk(x[1], bound)
@@ -405,12 +479,16 @@ def assigned_outer(node, bound=frozenset()):
 
 def is_unit(e):
     """an `if` / block evaluated only for its effects"""
+    if e[0] == "for":
+        return True
+    if e[0] == "match":
+        return all(is_unit(b) for _p, b in e[2])
     if e[0] == "if":
         return e[3] is None or is_unit(e[2])
     if e[0] == "iflet":
         return e[4] is None or is_unit(e[3])
     if e[0] == "block":
-        return e[2] is None or (e[2][0] in ("if", "iflet", "block") and is_unit(e[2]))
+        return e[2] is None or (e[2][0] in ("if", "iflet", "block", "match", "for") and is_unit(e[2]))
     return False
 
 
@@ -440,8 +518,12 @@ class Emit:
     # ---- pure expressions -> (text, type)
     def ex(self, e, env, expect=None):
         t, ty = self.ex0(e, env, expect)
-        if expect == "OptF" and ty == "Rat":
-            return f"some ({t})", "OptF"
+        if expect in ("OptF", "Elem") and ty == "Rat":
+            return f"some ({t})", expect
+        if expect in ("OptF", "Elem") and ty in ("OptF", "Elem"):
+            return t, expect
+        if ty == "NoneLit" and expect in ("OptF", "Elem", "OptNat"):
+            return t, expect
         if expect == "OptF" and ty == "Nat":
             raise Unsupported("integer where a float is expected")
         if isinstance(expect, tuple) and expect[0] == "tuple" and ty != expect:
@@ -468,6 +550,8 @@ class Emit:
             n = e[1]
             if n == "f64::NAN":
                 return "none", "OptF"
+            if n == "None":
+                return "none", (expect if expect in ("OptF", "Elem", "OptNat") else "NoneLit")
             if n == "EPS":
                 return "EPS", "Rat"
             if n in env:
@@ -476,6 +560,13 @@ class Emit:
         if k == "paren":
             t, ty = self.ex0(e[1], env, expect)
             return f"({t})", ty
+        if k == "ref":
+            return self.ex0(e[1], env, expect)
+        if k == "not":
+            t, ty = self.ex0(e[1], env)
+            if ty != "Bool":
+                raise Unsupported("! on a non-boolean")
+            return f"(!{t})", "Bool"
         if k == "neg":
             t, ty = self.ex0(e[1], env)
             if ty != "Rat":
@@ -507,6 +598,8 @@ class Emit:
                 if ta == "Nat" and tb == "Nat":
                     return (f"({a} / 2 ^ {b})" if op == ">>" else f"({a} * 2 ^ {b})"), "Nat"
                 raise Unsupported("shift of a non-integer")
+            if op == "<" and ta == "OptNat" and tb == "OptNat":
+                return f"(optLt {a} {b})", "Bool"
             if op in ("<", ">", "<=", ">=", "==", "!="):
                 if ta == tb and ta in ("Nat", "Rat"):
                     lop = {"<": "<", ">": ">", "<=": "≤", ">=": "≥", "==": "=", "!=": "≠"}[op]
@@ -517,9 +610,59 @@ class Emit:
                     return f"({a} {'&&' if op[0] == '&' else '||'} {b})", "Bool"
                 raise Unsupported("boolean operator on non-booleans")
             raise Unsupported(f"operator {op}")
+        if k == "mcall" and e[1][0] == "path" and e[1][1] in ("self", "other") and e[1][1] not in env:
+            name, args = e[2], e[3]
+            series = "xs" if e[1][1] == "self" else "ys"
+            if name == "len" and not args:
+                return "len", "Nat"
+            if name == "is_empty" and not args:
+                return "decide (len = 0)", "Bool"
+            if name == "uget" and len(args) == 1:
+                a, ta = self.ex0(args[0], env)
+                if ta != "Nat":
+                    raise Unsupported("uget index")
+                return f"(uget {series} {a})", "Elem"
+            raise Unsupported(f"self.{name}()")
         if k == "mcall":
             name, args = e[2], e[3]
             r, tr = self.ex0(e[1], env)
+            if name == "to_opt" and not args and tr in ("Elem", "Rat"):
+                return r, tr
+            if name in ("is_some", "is_none") and not args and tr in ("Elem", "OptNat", "OptF"):
+                return f"{r}.{'isSome' if name == 'is_some' else 'isNone'}", "Bool"
+            if name == "unwrap" and not args and tr == "OptNat":
+                return f"({r}.getD 0)", "Nat"       # a panic on `None` is not part of the generated semantics
+            if name == "unwrap_or" and len(args) == 1 and tr in ("OptF", "Elem"):
+                a, ta = self.ex0(args[0], env)
+                if ta == "OptF" and a == "none":
+                    return r, "OptF"               # x.unwrap_or(NAN): NaN is `none`
+                raise Unsupported("unwrap_or on a float option")
+            if name == "and" and len(args) == 1 and tr in ("Elem", "OptNat", "OptF"):
+                a, ta = self.ex0(args[0], env)
+                if ta in ("Elem", "OptNat", "OptF"):
+                    return f"({r}.bind fun _ => {a})", ta
+                raise Unsupported(".and() operand")
+            if name == "map" and len(args) == 1 and args[0][0] == "closure" and tr in ("Elem", "OptNat", "OptF"):
+                cl = args[0]
+                if len(cl[1]) != 1 or cl[1][0][0] != "pvar":
+                    raise Unsupported(".map closure parameter")
+                pn = cl[1][0][1]
+                env2 = dict(env)
+                env2[pn] = "Nat" if tr == "OptNat" else "Rat"
+                if assigned_outer(cl[2]):
+                    raise Unsupported(".map closure assigns")
+                b, tb = self.effect(cl[2], env2, [], None)
+                if tb == "Rat":
+                    return f"({r}.map fun {lname(pn)} => {b})", "OptF"
+                if tb == "Nat":
+                    return f"({r}.map fun {lname(pn)} => {b})", "OptNat"
+                raise Unsupported(f".map closure result {tb}")
+            if name in ("sort_cmp", "sort_cmp_rev") and len(args) == 1 and tr in ("Elem", "Rat"):
+                a, ta = self.ex(args[0], env, "Elem")
+                rr = r if tr == "Elem" else f"(some {r})"
+                return f"({'sortCmp' if name == 'sort_cmp' else 'sortCmpRev'} {rr} {a})", "Ord"
+            if name == "cast" and not args and tr == "NoneLit":
+                return "none", "OptF"
             if name in ("f64",) and not args:
                 if tr == "Nat":
                     return f"(({r} : Nat) : Rat)", "Rat"
@@ -570,6 +713,19 @@ class Emit:
         if k == "call":
             if re.fullmatch(r"(\w+::)*zero", e[1]) and not e[2]:
                 return "(0 : Rat)", "Rat"
+            if e[1] == "Some" and len(e[2]) == 1:
+                a, ta = self.ex0(e[2][0], env)
+                if ta == "Nat":
+                    return f"(some {a})", "OptNat"
+                if ta == "Rat":
+                    return f"(some {a})", "Elem"
+                raise Unsupported(f"Some({ta})")
+            if e[1] in ("min", "max") and len(e[2]) == 2:
+                a, ta = self.ex0(e[2][0], env)
+                b, tb = self.ex0(e[2][1], env)
+                if ta == tb == "Nat":
+                    return f"({e[1]} {a} {b})", "Nat"
+                raise Unsupported("min/max of non-integers")
             raise Unsupported(f"call {e[1]}")
         if k in ("if", "iflet", "block"):
             # an expression that may assign: only allowed when it assigns nothing
@@ -591,6 +747,46 @@ class Emit:
         k = e[0]
         if k == "block":
             return self.stmts(e[1], e[2], dict(env), outs, expect)
+        if k == "match":
+            stxt, sty = self.ex0(e[1], env)
+            if sty != "Ord":
+                raise Unsupported("match on a non-Ordering")
+            omap = {"Ordering::Less": ".lt", "Ordering::Equal": ".eq", "Ordering::Greater": ".gt", "_": "_",
+                    "Less": ".lt", "Equal": ".eq", "Greater": ".gt"}
+            sel = {}
+            tys = []
+            for pats, body in e[2]:
+                if any(q not in omap for q in pats):
+                    raise Unsupported("match pattern")
+                btxt, bty = self.stmts(body[1], body[2], dict(env), outs, expect)
+                tys.append(bty)
+                for q in pats:
+                    for c in ([".lt", ".eq", ".gt"] if omap[q] == "_" else [omap[q]]):
+                        sel.setdefault(c, btxt)
+            if any(t != tys[0] for t in tys):
+                raise Unsupported("match arms of different types")
+            if set(sel) != {".lt", ".eq", ".gt"}:
+                raise Unsupported("non-exhaustive match")
+            # a named selector instead of an anonymous `match`: lemmas about it are reusable
+            return (f"ordCases {stxt}\n" + "\n".join("  (" + sel[c].replace("\n", "\n   ") + ")" for c in (".lt", ".eq", ".gt"))), tys[0]
+        if k == "for":
+            pat, it, body = e[1], e[2], e[3]
+            if pat[0] != "pvar" or it[0] != "bin" or it[1] not in ("..=", ".."):
+                raise Unsupported("for loop shape")
+            a, ta = self.ex0(it[2], env)
+            b, tb = self.ex0(it[3], env)
+            if ta != "Nat" or tb != "Nat":
+                raise Unsupported("for loop bounds")
+            n_txt = f"({b} + 1 - {a})" if it[1] == "..=" else f"({b} - {a})"
+            if not outs:
+                return "()", None
+            env_b = dict(env)
+            env_b[pat[1]] = "Nat"
+            btxt, bty = self.stmts(body[1], body[2], env_b, outs, None)
+            if bty is not None:
+                raise Unsupported("valued for body")
+            acc = tuple_txt([lname(o) for o in outs])
+            return (f"List.foldl (fun {acc if len(outs) > 1 else acc} {lname(pat[1])} =>\n{indent(btxt)})\n  {acc} (List.range' {a} {n_txt})"), None
         if k == "if":
             c = e[1]
             guard = self.null_guard(c, env)
@@ -643,7 +839,7 @@ class Emit:
     def join(self, e, env, env_t, outs, t_txt, t_ty, e_txt, e_ty, expect):
         if t_ty == e_ty:
             return t_txt, e_txt, t_ty
-        if {t_ty, e_ty} == {"Rat", "OptF"} or (isinstance(t_ty, tuple) and isinstance(e_ty, tuple)):
+        if {t_ty, e_ty} <= {"Rat", "OptF", "Elem"} or (isinstance(t_ty, tuple) and isinstance(e_ty, tuple)):
             # re-translate with the wider type expected
             want = self.wider(t_ty, e_ty)
             if e[0] == "if":
@@ -658,7 +854,7 @@ class Emit:
     def wider(self, a, b):
         if a == b:
             return a
-        if {a, b} == {"Rat", "OptF"}:
+        if {a, b} <= {"Rat", "OptF", "Elem"}:
             return "OptF"
         if isinstance(a, tuple) and isinstance(b, tuple) and a[0] == b[0] == "tuple" and len(a[1]) == len(b[1]):
             return ("tuple", tuple(self.wider(x, y) for x, y in zip(a[1], b[1])))
@@ -667,7 +863,7 @@ class Emit:
     def null_guard(self, c, env):
         """`a.not_none()` or `a.not_none() && b.not_none()` over nullable elements -> [names]"""
         def one(x):
-            if x[0] == "mcall" and x[2] == "not_none" and not x[3] and x[1][0] == "path" and env.get(x[1][1]) == "Elem":
+            if x[0] == "mcall" and x[2] in ("not_none", "is_some") and not x[3] and x[1][0] == "path" and env.get(x[1][1]) == "Elem":
                 return x[1][1]
             return None
         if c[0] == "paren":
@@ -698,6 +894,17 @@ class Emit:
         for s in ss:
             if s[0] == "let":
                 p, e = s[1], s[3]
+                ann = ann_type(s[4]) if len(s) > 4 else None
+                if e is None:              # `let x: f64;` — assigned later; a float may become NaN
+                    if p[0] != "pvar" or ann not in ("Rat", "Nat"):
+                        raise Unsupported("uninitialised let")
+                    if ann == "Rat":
+                        lines.append(f"let {lname(p[1])} : Option Rat := none")
+                        env[p[1]] = "OptF"
+                    else:
+                        lines.append(f"let {lname(p[1])} : Nat := 0")
+                        env[p[1]] = "Nat"
+                    continue
                 inner = [o for o in assigned_outer(e) if o in env]
                 if inner:
                     txt, ty = self.effect(e, env, inner, None)
@@ -708,17 +915,33 @@ class Emit:
                     lines.append(f"let {tuple_txt([lname(o) for o in inner] + [ptxt])} :=\n{indent(txt)}")
                     env.update(tmp)
                 else:
-                    txt, ty = self.ex(e, env)
+                    txt, ty = self.ex(e, env, ann if ann in ("Elem", "OptNat", "OptF") else None)
+                    if ty == "NoneLit":
+                        raise Unsupported("let of an untyped None")
                     tmp = dict(env)
                     ptxt = self.bind_pat(p, ty, tmp)
                     lines.append(f"let {ptxt} := {txt}")
                     env.update(tmp)
+            elif s[0] == "assign" and s[2][0] == "tuple":
+                op, tgt, rhs = s[1], s[2], s[3]
+                if op != "=" or rhs[0] != "tuple" or len(rhs[1]) != len(tgt[1]):
+                    raise Unsupported("tuple assignment shape")
+                names = []
+                for t in tgt[1]:
+                    if t[0] != "path" or t[1] not in env:
+                        raise Unsupported("assignment target")
+                    names.append(t[1])
+                parts = [self.ex(x, env, env[n]) for x, n in zip(rhs[1], names)]
+                for (r, tr), n in zip(parts, names):
+                    if tr != env[n]:
+                        raise Unsupported(f"assignment of {tr} to {env[n]} variable {n}")
+                lines.append(f"let {tuple_txt([lname(n) for n in names])} := {tuple_txt([r for r, _ in parts])}")
             elif s[0] == "assign":
                 op, tgt, rhs = s[1], s[2], s[3]
                 if tgt[0] != "path" or tgt[1] not in env:
                     raise Unsupported("assignment target")
                 n = tgt[1]
-                r, tr = self.ex(rhs, env)
+                r, tr = self.ex(rhs, env, env[n] if env[n] in ("Elem", "OptNat", "OptF") else None)
                 if tr != env[n]:
                     raise Unsupported(f"assignment of {tr} to {env[n]} variable {n}")
                 if op == "=":
@@ -728,7 +951,7 @@ class Emit:
             elif s[0] == "expr":
                 e = s[1]
                 inner = [o for o in assigned_outer(e) if o in env]
-                if e[0] not in ("if", "iflet", "block"):
+                if e[0] not in ("if", "iflet", "block", "match", "for"):
                     raise Unsupported("expression statement")
                 if not inner:
                     continue            # no effect on the state
@@ -738,7 +961,7 @@ class Emit:
                 lines.append(f"let {tuple_txt([lname(o) for o in inner])} :=\n{indent(txt)}")
         ret = [lname(o) for o in outs]
         ty = None
-        if tail is not None and tail[0] in ("if", "iflet", "block") and is_unit(tail):
+        if tail is not None and tail[0] in ("if", "iflet", "block", "match", "for") and is_unit(tail):
             inner = [o for o in assigned_outer(tail) if o in env]
             if inner:
                 txt, ty0 = self.effect(tail, env, inner, None)
@@ -763,6 +986,24 @@ class Emit:
         return "\n".join(lines), ty
 
 
+def ann_type(txt):
+    """type annotation text -> translator type"""
+    t = (txt or "").replace(" ", "")
+    if not t:
+        return None
+    if t in ("f64", "f32"):
+        return "Rat"
+    if t in ("usize", "i32", "i64", "u64", "isize"):
+        return "Nat"
+    if t == "Option<usize>":
+        return "OptNat"
+    if re.fullmatch(r"Option<T(::Inner)?>", t):
+        return "Elem"
+    if t == "bool":
+        return "Bool"
+    return None
+
+
 def indent(s, n=2):
     return "\n".join(" " * n + l for l in s.split("\n"))
 
@@ -777,6 +1018,7 @@ def fn_bodies(src):
         # find the body's opening brace: first `{` after the signature's `)`/where clause that is
         # followed by a statement; signatures here contain no `{`
         i = src.index("{", m.end())
+        sig = src[m.end(): i]
         depth, j = 0, i
         while j < len(src):
             if src[j] == "{":
@@ -786,10 +1028,120 @@ def fn_bodies(src):
                 if depth == 0:
                     break
             j += 1
-        yield m.group(1), src[i: j + 1]
+        yield m.group(1), src[i: j + 1], sig
 
 
-def translate_fn(name, body_src):
+def translate_idx_fn(name, body_src, sig_src):
+    """entry points over `rolling_apply_idx`: closure `|start, end, v|` that reads the series
+    through `self.uget(i)`.  Only `step` is emitted (no decomposition)."""
+    blk = P(tokenize(body_src)).block()
+    stmts, tail = blk[1], blk[2]
+    if tail is None and stmts and stmts[-1][0] == "expr":
+        tail = stmts[-1][1]
+        stmts = stmts[:-1]
+    call = tail
+    if not (call and call[0] == "mcall" and call[1] == ("path", "self") and call[2] == "rolling_apply_idx"):
+        raise Unsupported("driver call shape")
+    clos = [a for a in call[3] if a[0] == "closure"]
+    if len(clos) != 1:
+        raise Unsupported("driver call without exactly one closure")
+    clos = clos[0]
+    em = Emit()
+    env = {"window": "Nat", "min_periods": "OptNat"}
+    bools = re.findall(r"\b(\w+)\s*:\s*bool\b", sig_src)
+    for b in bools:
+        env[b] = "Bool"
+    state, pre, L = [], [], []          # pre: every non-`mut` let, in order (may shadow `window`)
+    seen_mp = False
+    for st in stmts:
+        if st[0] != "let" or st[1][0] != "pvar" or st[3] is None:
+            raise Unsupported("statement before the driver call")
+        n, mut, e = st[1][1], st[2], st[3]
+        ann = ann_type(st[4]) if len(st) > 4 else None
+        txt, ty = em.ex(e, env, ann if ann in ("Elem", "OptNat", "OptF") else None)
+        if ty == "NoneLit":
+            raise Unsupported("untyped None")
+        if mut:
+            state.append((n, ty, txt, len(pre)))
+        else:
+            pre.append((n, ty, txt))
+            if n == "min_periods":
+                if ty != "Nat":
+                    raise Unsupported("min_periods is not an integer")
+                seen_mp = True
+        env[n] = ty
+    if not seen_mp:
+        raise Unsupported("no min_periods binding")
+    params = clos[1]
+    if len(params) != 3 or any(q[0] != "pvar" for q in params):
+        raise Unsupported("closure parameters")
+    cenv = dict(env)
+    cenv[params[0][1]] = "OptNat"
+    cenv[params[1][1]] = "Nat"
+    cenv[params[2][1]] = "Elem"
+    outs = [n for n, _, _, _ in state]
+    body = clos[2]
+    btxt, bty = em.stmts(body[1], body[2], dict(cenv), outs, "OptF")
+    if bty in ("Rat",):
+        btxt, bty = em.stmts(body[1], body[2], dict(cenv), outs, "OptF")
+    if bty not in ("OptF", "Elem"):
+        raise Unsupported(f"closure result type {bty}")
+    bparams = "".join(f" ({lname(b)} : Bool)" for b in bools)
+    L.append(f"namespace {name}")
+    L.append(f"/-- captured `let mut` state of `{name}` -/")
+    L.append("structure St where")
+    for n, ty, _, _ in state:
+        L.append(f"  {lname(n)} : {ty_lean(ty)}")
+    L.append("deriving DecidableEq, Repr")
+
+    def prelets(upto=None, skip_mp=False):
+        out_ = []
+        for n, ty, txt in (pre if upto is None else pre[:upto]):
+            if n == "min_periods":
+                if skip_mp:
+                    continue
+                out_.append(f"  let min_periods : Nat := {txt}")
+            else:
+                out_.append(f"  let {lname(n)} : {ty_lean(ty)} := {txt}")
+        return out_
+    L.append("def init (len window : Nat) : St :=")
+    L.append("  let _ := len; let _ := window")
+    # the state initialisers may read the lets before them
+    L += [l for l in prelets() if "min_periods" not in l]
+    L.append("  { " + ", ".join(f"{lname(n)} := {txt}" for n, _, txt, _ in state) + " }")
+    L.append("/-- the entry point's effective window (`let window = …` before the driver call) -/")
+    L.append("def effWindow (len window : Nat) : Nat :=")
+    L.append("  let _ := len")
+    wl = [i for i, (n, _, _) in enumerate(pre) if n == "window"]
+    if wl:
+        L += prelets(upto=wl[-1] + 1, skip_mp=True)
+    L.append("  window")
+    L.append("def minPeriods (len window : Nat) (min_periods : Option Nat) : Nat :=")
+    L.append("  let _ := len")
+    L += prelets()
+    L.append("  min_periods")
+    L.append("def driver : String := \"rolling_apply_idx\"")
+    L.append("/-- the whole closure body, in source order; `window` is the requested window, `min_periods` the")
+    L.append("value of the `let min_periods` binding -/")
+    L.append(f"def step (sqrt : Rat → Rat) (xs : List (Option Rat)) (len window min_periods : Nat){bparams} (s : St) "
+             f"({lname(params[0][1])} : Option Nat) ({lname(params[1][1])} : Nat) ({lname(params[2][1])} : Option Rat) : St × Option Rat :=")
+    L.append("  let _ := sqrt; let _ := xs; let _ := len; let _ := window; let _ := min_periods")
+    L += prelets(skip_mp=True)
+    for n, _, _, _ in state:
+        L.append(f"  let {lname(n)} := s.{lname(n)}")
+    L.append(f"  let {tuple_txt([lname(o) for o in outs] + ['res__'])} :=")
+    L.append(indent(btxt, 4))
+    L.append("  ({ " + ", ".join(f"{lname(n)} := {lname(n)}" for n in outs) + " }, res__)")
+    L.append("def decomposed : Bool := false")
+    L.append("def split3 : Bool := false")
+    L.append("def parsed : Bool := true")
+    L.append(f"end {name}")
+    return "\n".join(L)
+
+
+def translate_fn(name, body_src, sig_src=""):
+    if re.search(r"self\s*\.\s*rolling_apply_idx\s*\(", body_src):
+        return translate_idx_fn(name, body_src, sig_src)
     if not re.search(r"self\s*\.\s*(rolling_apply|rolling2_apply)\s*\(", body_src):
         return None
     blk = P(tokenize(body_src)).block()
@@ -1000,7 +1352,7 @@ def free_names(node):
 
 def main():
     out = ["/- GENERATED by translator/closures.py from the Rust sources — do not edit. -/",
-           "set_option linter.unusedVariables false", "namespace Tv.Gen", ""]
+           "import Tv.GenPrelude", "set_option linter.unusedVariables false", "namespace Tv.Gen", ""]
     m = re.search(r"pub const EPS:\s*f64\s*=\s*([0-9.eE+-]+)\s*;",
                   open(os.path.join(repo, "tea-core/src/prelude.rs"), encoding="utf-8").read())
     from fractions import Fraction
@@ -1012,9 +1364,9 @@ def main():
             src = open(os.path.join(repo, rel), encoding="utf-8", errors="replace").read()
         except FileNotFoundError:
             continue
-        for name, body in fn_bodies(src):
+        for name, body, sig in fn_bodies(src):
             try:
-                txt = translate_fn(name, body)
+                txt = translate_fn(name, body, sig)
             except Unsupported as ex:
                 reason = str(ex).replace('"', "'")
                 txt = (f"namespace {name}\n/- UNPARSED: {reason} -/\ndef parsed : Bool := false\n"
